@@ -138,7 +138,11 @@ def stepChain (pr : ChainProg) (toks : List String) : ChainProg × String :=
             let t : Tx := { msg := m, signer := (intOf rest "signer").toNat, pk := kvOf rest "pk" == "1", fee := intOf rest "fee",
                             memo := (intOf rest "memo").toNat,
                             -- the multisignature-specific damages (components exchanged / one dropped) are signature damage
-                            mutn := (if kvOf rest "mut" == "msswap" || kvOf rest "mut" == "msdrop" then "sig" else kvOf rest "mut"), id := " ".intercalate rest }
+                            -- white space added to the memo is a memo change; a changed message field or a signature made for
+                            -- another chain id is a signature that does not match the sign bytes
+                            mutn := (let m := kvOf rest "mut"
+                                     if m == "msswap" || m == "msdrop" || m == "msg" || m == "chain" then "sig"
+                                     else if m == "memosp" || m == "memopre" then "memo" else m), id := " ".intercalate rest }
             .tx (if mode == "check" then Mode.check else if mode == "simulate" then Mode.simulate else Mode.deliver) t
         | _ => none
       match op? with
